@@ -17,7 +17,7 @@ import tempfile
 from . import typegen as tg
 from .fingerprint import fp_value, mask
 from .kernel import HarnessError, Streams, Trace, canon, h64
-from .simfs import ChunkyText, Fault, FaultyStringIO, SimFS, make_caller_wrapper, norm_encoding
+from .simfs import ChunkyText, Fault, FaultyStringIO, PipeText, SimFS, make_caller_wrapper, norm_encoding
 
 PROP = 'C19'
 LEGAL_FAULTS = ('short', 'EINTR')   # the io stack must absorb these: the operation sees nothing
@@ -84,7 +84,7 @@ def gen_yaml_opts(rng, bare=False):
 
 PATHKINDS = ['str', 'Path', 'str', 'Path', 'rel', 'relPath', 'dotdot']
 SINKS_PATH = ['p0', 'p1']
-SINKS_STREAM = ['s0', 's1', 's2', 's3']   # StringIO, TextIOWrapper over SimRaw, FaultyStringIO, ChunkyText
+SINKS_STREAM = ['s0', 's1', 's2', 's3', 's4']   # StringIO, TextIOWrapper over SimRaw, FaultyStringIO, ChunkyText, PipeText (non-seekable)
 
 
 def gen_plan(seed: int, cls: str) -> dict:
@@ -353,7 +353,7 @@ def gen_faults(rf, op, knobs):
                 continue
             out.append({'where': where, 'kind': kind, 'k': k,
                         'sticky': kind not in LEGAL_FAULTS and 'sticky' in fk and rf.random() < 0.3})
-        elif target == 's2':
+        elif target in ('s2', 's4'):
             out.append({'where': 'stream_write' if writing else 'stream_read', 'kind': 'EIO', 'k': k, 'sticky': False})
     return out
 
@@ -478,7 +478,9 @@ class Exec:
         s2.obj = FaultyStringIO(self.fs)
         s3 = _Sink('s3')
         s3.obj = ChunkyText(self.fs, self.knobs.get('text_chunk', 7))
-        for s in (s0, s1, s2, s3):
+        s4 = _Sink('s4')
+        s4.obj = PipeText(self.fs, self.knobs.get('text_chunk', 7))
+        for s in (s0, s1, s2, s3, s4):
             s.state = 'intact'
             self.sinks[s.name] = s
 
@@ -744,13 +746,16 @@ class Exec:
         if is_stream:
             try:
                 if not append:
-                    sink.obj.seek(0)
-                    sink.obj.truncate()
+                    if isinstance(sink.obj, PipeText):
+                        sink.obj.reset()            # a new pipe
+                    else:
+                        sink.obj.seek(0)
+                        sink.obj.truncate()
                     sink.docs = []
                     if sink.state == 'torn':
                         self.count('torn_then_rewritten')
                     sink.state = 'intact'
-                else:
+                elif not isinstance(sink.obj, PipeText):
                     sink.obj.seek(0, 2)
                 if before:
                     sink.obj.write(before)       # not flushed: it may still sit in the caller's text layer when pane is called
@@ -870,6 +875,8 @@ class Exec:
         try:
             if text is not None:
                 src = io.StringIO(text)
+            elif isinstance(sink.obj, PipeText):
+                src = sink.obj.reader()
             elif sink.obj is not None:
                 src = sink.obj
                 if not isinstance(src, (io.StringIO, ChunkyText)):
@@ -885,7 +892,7 @@ class Exec:
                     got = (pane.io.from_json if fmt == 'json' else pane.io.from_yaml)(src, ent['T'], **kw)
                     ok = _eq(got, ent['x'])
             finally:
-                if sink.obj is not None and text is None:
+                if sink.obj is not None and text is None and not isinstance(sink.obj, PipeText):
                     sink.obj.seek(0, 2)
             return bool(ok)
         except Exception:
@@ -898,7 +905,7 @@ class Exec:
         """What the sink holds, as the caller would find it: a caller stream is read back through the
         caller's own stream object (its encoding is the caller's business); a path is decoded as UTF-8."""
         if sink.obj is not None:
-            if isinstance(sink.obj, (io.StringIO, ChunkyText)):
+            if isinstance(sink.obj, (io.StringIO, ChunkyText, PipeText)):
                 return sink.obj.getvalue()
             try:
                 sink.obj.flush()
@@ -971,6 +978,8 @@ class Exec:
                 self.trace.add('skip', i, 'str0')
                 return
             source = docs[0][2]
+        elif isinstance(sink.obj, PipeText):
+            source = sink.obj.reader()          # the read end of the pipe: readable once, front to back
         elif is_stream:
             try:
                 if not isinstance(sink.obj, (io.StringIO, ChunkyText)):
@@ -1012,6 +1021,8 @@ class Exec:
         else:
             self.fs.disarm()
             self.check_ownership(i, op, sink, opened_before, fds_before, 'on_return')
+        if isinstance(sink.obj, PipeText) and getattr(source, 'closed', False):
+            raise Violation('caller_stream_closed', f"the read end of the caller's pipe {sink.name} was closed by {op['op']}")
         fired = self.fired_summary()
         err_fired = [f for (f, _) in self.fs.fired if f.kind not in LEGAL_FAULTS]
         for f in fired:
@@ -1062,7 +1073,7 @@ class Exec:
                 raise Violation('read_wrong_value', f"read back {mask(repr(ret))[:120]} != written {mask(repr(ent['x']))[:120]}")
         if any(f.kind in LEGAL_FAULTS for (f, _) in self.fs.fired):
             self.count('short_read_ok')
-        if is_stream:
+        if is_stream and not isinstance(sink.obj, PipeText):
             # the caller's stream must still be usable by the caller
             try:
                 sink.obj.seek(0, 2)
